@@ -1,6 +1,10 @@
 package tv
 
 import (
+	"sync"
+
+	"verif/pgbind"
+
 	"context"
 	"errors"
 	"fmt"
@@ -43,9 +47,15 @@ type Query struct {
 	ExtraNodes int
 }
 
-// domain derives the graph domain of a query: the text-sliced domain of the feature grammar for enumerated texts, the
+// domains derives the graph domains of a query: the text-sliced domain of the feature grammar for enumerated texts, the
 // model-derived domain (kinds, keys and literals of the query itself) for everything else.
-func (q Query) domain(m *cypher.RegularQuery, b Bounds) Domain {
+//
+// Enumerated texts with up to two features are evaluated in the full regime (self loops, parallel relationships, values
+// of mixed types) on all graphs with <= 2 nodes / <= 2 relationships, in both tiers: that is the scope in which every
+// disagreement of the unchanged tree is attributed to a recorded deviation. Larger graphs (thorough) and texts with
+// three features are evaluated in the tame regime only: outside it the recorded deviations of DAWGS combine in ways
+// that cannot all be attributed, and what cannot be attributed is not judged.
+func (q Query) domains(m *cypher.RegularQuery, b Bounds) []Domain {
 	maxEdges, budget := b.MaxEdges, b.Budget
 	if q.MaxEdges > 0 {
 		maxEdges = q.MaxEdges
@@ -54,15 +64,19 @@ func (q Query) domain(m *cypher.RegularQuery, b Bounds) Domain {
 		budget = q.Budget
 	}
 	if q.Source == "enum" {
-		// Texts with three features are evaluated in the tame regime only (no self loops, no parallel relationships, one
-		// value type per key): outside it the recorded deviations of DAWGS combine in ways that cannot all be attributed,
-		// and what cannot be attributed is not judged. Texts with up to two features cover the full regime.
-		if len(q.Features) >= 3 && budget > 400 {
-			budget = 400
+		if len(q.Features) >= 3 {
+			if budget > 400 {
+				budget = 400
+			}
+			return []Domain{DomainFor(q.Text, b.MaxNodes, maxEdges, budget, true)}
 		}
-		return DomainFor(q.Text, b.MaxNodes, maxEdges, budget, len(q.Features) >= 3)
+		out := []Domain{DomainFor(q.Text, 2, 2, 600, false)}
+		if b.MaxNodes > 2 || maxEdges > 2 {
+			out = append(out, DomainFor(q.Text, b.MaxNodes, maxEdges, budget, true))
+		}
+		return out
 	}
-	return DomainForModel(m, q.Params, b.MaxNodes+q.ExtraNodes, maxEdges, budget, q.Source != "optimizer-seed")
+	return []Domain{DomainForModel(m, q.Params, b.MaxNodes+q.ExtraNodes, maxEdges, budget, q.Source != "optimizer-seed")}
 }
 
 // withParams gives every $parameter of the query a value (both evaluators receive the same map).
@@ -246,6 +260,28 @@ type Statement struct {
 	b    *SQLBackend
 	run  func(g *gm.Graph, kindIDs map[string]int16) (*gm.Rows, error)
 	perr error
+}
+
+var (
+	bindSchemaOnce sync.Once
+	bindSchema     *pgbind.Schema
+)
+
+// notClosed reports whether the statement leaves a name unresolved (PostgreSQL would reject it when it is analysed): such
+// a statement has no result to compare, it is property C03's business.
+func notClosed(res translate.Result) bool {
+	bindSchemaOnce.Do(func() {
+		sc, err := pgbind.LoadSchema(cyq.RepoRoot())
+		if err != nil {
+			core.Fatalf("schema: %v", err)
+		}
+		bindSchema = sc
+	})
+	closed := true
+	if p := core.Try(func() { closed = len(pgbind.Statement(bindSchema, res.Statement).Issues) == 0 }); p != nil {
+		return false
+	}
+	return !closed
 }
 
 func (b *SQLBackend) prepare(res translate.Result) *Statement {
